@@ -481,6 +481,34 @@ def domain_dependency(prog, ctx, E):
                         pos_dom = idx
                         txt = show(n['rhs']).replace(' ', '').replace('this.', '')
                         dom_ok = ('%s[0]' % xfield in txt) and ('%s[N-1]' % xfield in txt or '%s.back()' % xfield in txt)
+    # every other field that Locate's guard reads must likewise be computed from the abscissae as finally stored
+    loc = prog.fn(L + 'Interpolation::Locate', 1)
+    gfields = set()
+    for st_ in G.exit_sites(prog, loc, G.find_wrappers(prog)):
+        for a_ in G.f_atoms(st_.reach):
+            for n_ in walk_expr(a_):
+                if n_.get('k') == 'Member' and strip(n_.get('base') or {}).get('k') == 'This' and n_['name'] not in (xfield, 'domain', 'N'):
+                    gfields.add(n_['name'])
+    for gf in sorted(gfields):
+        where = []
+        for idx, s in enumerate(body):
+            for s2 in walk_stmts(s):
+                for e in stmt_exprs(s2):
+                    for n in walk_expr(e):
+                        if n['k'] == 'Bin' and n['op'] == '=' and strip(n['lhs']).get('k') == 'Member' and strip(n['lhs'])['name'] == gf:
+                            uses_x = any(x_.get('k') == 'Member' and x_.get('name') == xfield for x_ in walk_expr(n['rhs']))
+                            where.append((idx, uses_x))
+        inits_ = [i_ for i_ in ctor.inits if i_.get('field') == gf and i_.get('written')]
+        if inits_ and any(x_.get('name') in (ctor.params[0]['name'], xfield) for x_ in walk_expr(inits_[0]['init']) if x_.get('k') in ('Ref', 'Member')):
+            where.append((-1, True))
+        if not where:
+            ctx.undecided(E, 'Interpolation:guard-field:' + gf, ctor, 'field `%s` read by the domain guard of Locate is not assigned in this constructor' % gf)
+            continue
+        early = [w_ for w_ in where if w_[1] and any(w_[0] < p_ for p_ in pos_scale)]
+        ctx.decide(E, 'Interpolation:guard-field:' + gf, ctor, not early,
+                   'field `%s` used by the domain guard is computed after the abscissae received their unit factor' % gf,
+                   'field `%s`, which the domain guard of Locate compares x with, is computed from the abscissae at statement %s, before they are '
+                   'multiplied by x_dim (statements %s): valid arguments are rejected (or invalid ones accepted) when x_dim != 1' % (gf, [w_[0] for w_ in early], pos_scale))
     ok = pos_dom is not None and dom_ok and all(p < pos_dom for p in pos_scale)
     ctx.decide(E, 'Interpolation:domain-field', ctor, ok, 'domain = {X[0], X[N-1]} is taken after the abscissae received their unit factor',
                'the domain tested by Locate is not the range of the stored abscissae (domain assignment at statement %s, abscissa scaling at %s, '
